@@ -21,9 +21,11 @@
                                  = 5.3.1 Field Selections + 5.3.3 Leaf Field Selections + 5.5.1.3 Fragments
                                    On Composite Types  (as a block only; documents with `docOK`: no
                                    sub-selection below `__typename`, no field directive called `ifdef`)
-  `c09_partial_typed`: with these hypotheses, rejected ↔ invalid restricted to 12 of the 22 rule structs
-  (+ walker + parser checks) and 17 of the 28 reference rules.
-  NOT proved per rule: KnownArgumentNames (stale `current_args`), PossibleFragmentSpreads,
+    PossibleFragmentSpreads      = 5.5.2.3 Fragment Spread Is Possible  (on top of the block; abstract types
+                                   have at least one possible type)
+  `c09_partial_typed`: with these hypotheses, rejected ↔ invalid restricted to 13 of the 22 rule structs
+  (+ walker + parser checks) and 18 of the 28 reference rules.
+  NOT proved per rule: KnownArgumentNames (stale `current_args`),
   ArgumentsOfCorrectType, DefaultValuesOfCorrectType, NoFragmentCycles, NoUnusedFragments,
   NoUndefinedVariables, NoUnusedVariables, VariableInAllowedPosition, OverlappingFieldsCanBeMerged
   (+ the recursion guard).
@@ -64,8 +66,10 @@
   OBLIGATION c09_partial
   OBLIGATION c09_rule_provided_non_null_arguments
   OBLIGATION c09_rule_fields_leafs_composites
+  OBLIGATION c09_rule_possible_fragment_spreads
   OBLIGATION c09_partial_typed
   OBLIGATION c09_witness_schema_wellformed
+  OBLIGATION c09_witness_schema_abstract_inhabited
   OBLIGATION c09_counterexample_two_operations
   OBLIGATION c09_counterexample_ifdef
   OBLIGATION c09_counterexample_enum_default
@@ -77,7 +81,7 @@
 import AGV.Model.Validate
 import AGV.Spec.Validate
 import AGV.Gen.Rules
-import AGV.Lemmas.ValidateBlock
+import AGV.Lemmas.ValidateSpreads
 
 namespace AGV.Props.C09
 open AGV.Core AGV.Model.Validate
@@ -377,6 +381,23 @@ theorem c09_rule_fields_leafs_composites (hW : SchemaWF S) (hD : docOK d = true)
     strict_stateless S d vars o _ (by decide)]
   exact rule_block S d hW.block (served_of S d hs) (hW.roots d) (docOK_selOK d hD)
 
+/-- PossibleFragmentSpreads = §5.5.2.3 Fragment Spread Is Possible, on top of the block (the rule
+    presupposes composite types on both sides, which is what the block rules establish); abstract
+    types with at least one possible type -/
+theorem c09_rule_possible_fragment_spreads (hW : SchemaWF S) (hA : AbstractInhabited S) (hD : docOK d = true)
+    (hs : violates_OperationTypeExists S d = false) :
+    ((Kind.unknownField ∈ strictErrors S {} d vars o ∨ Kind.leafWithSel ∈ strictErrors S {} d vars o
+      ∨ Kind.compositeNoSel ∈ strictErrors S {} d vars o ∨ Kind.fragNonComposite ∈ strictErrors S {} d vars o
+      ∨ Kind.inlineNonComposite ∈ strictErrors S {} d vars o)
+      ∨ (Kind.spreadImpossible ∈ strictErrors S {} d vars o ∨ Kind.inlineImpossible ∈ strictErrors S {} d vars o)) ↔
+    ((violates_FieldSelections S d = true ∨ violates_LeafFieldSelections S d = true
+      ∨ violates_FragmentsOnCompositeTypes S d = true) ∨ violates_FragmentSpreadIsPossible S d = true) := by
+  rw [strict_stateless S d vars o _ (by decide), strict_stateless S d vars o _ (by decide),
+    strict_stateless S d vars o _ (by decide), strict_stateless S d vars o _ (by decide),
+    strict_stateless S d vars o _ (by decide), strict_stateless S d vars o _ (by decide),
+    strict_stateless S d vars o _ (by decide)]
+  exact rule_block_spreads S d hW.block hA (served_of S d hs) (hW.roots d) (docOK_selOK d hD)
+
 -- the rules proved so far, on both sides
 
 /-- message kinds of the rules proved above -/
@@ -499,14 +520,16 @@ theorem c09_partial :
 
 /-- the kinds and reference rules added by the type-dependent theorems -/
 def typedKinds : List Model.Validate.Kind :=
-  [.fieldArgMissing, .dirArgMissing, .unknownField, .leafWithSel, .compositeNoSel, .fragNonComposite, .inlineNonComposite]
+  [.fieldArgMissing, .dirArgMissing, .unknownField, .leafWithSel, .compositeNoSel, .fragNonComposite, .inlineNonComposite,
+   .spreadImpossible, .inlineImpossible]
 def typedRules : List String :=
-  ["5.4.2.1 Required Arguments", "5.3.1 Field Selections", "5.3.3 Leaf Field Selections", "5.5.1.3 Fragments On Composite Types"]
+  ["5.4.2.1 Required Arguments", "5.3.1 Field Selections", "5.3.3 Leaf Field Selections", "5.5.1.3 Fragments On Composite Types",
+   "5.5.2.3 Fragment Spread Is Possible"]
 
 /-- PARTIAL c09, second stage: for well-formed registries and documents without sub-selections
-    below `__typename` / `ifdef` field directives, the equivalence extends to 12 of the 22 rule
-    structs (+ walker + parser checks) against 17 of the 28 reference rules. -/
-theorem c09_partial_typed (hW : SchemaWF S) (hD : docOK d = true) :
+    below `__typename` / `ifdef` field directives, the equivalence extends to 13 of the 22 rule
+    structs (+ walker + parser checks) against 18 of the 28 reference rules. -/
+theorem c09_partial_typed (hW : SchemaWF S) (hA : AbstractInhabited S) (hD : docOK d = true) :
     ((∃ k ∈ preErrors d, k ∈ provedPre) ∨ (∃ k ∈ strictErrors S {} d vars o, k ∈ provedKinds ++ typedKinds)) ↔
       (∃ r ∈ violations {} S d vars o, r ∈ provedRules ++ typedRules) := by
   have h0 := c09_partial S d vars o
@@ -517,43 +540,48 @@ theorem c09_partial_typed (hW : SchemaWF S) (hD : docOK d = true) :
     · intro _
       exact Or.inr ⟨.notConfigured, (c09_rule_not_configured S d vars o).mpr hOT, by decide⟩
   · have hs : violates_OperationTypeExists S d = false := by simpa using hOT
-    have hA := c09_rule_provided_non_null_arguments S d vars o hW hs
-    have hB := c09_rule_fields_leafs_composites S d vars o hW hD hs
+    have hA1 := c09_rule_provided_non_null_arguments S d vars o hW hs
+    have hB1 := c09_rule_possible_fragment_spreads S d vars o hW hA hD hs
     have hK : (∃ k ∈ strictErrors S {} d vars o, k ∈ typedKinds) ↔
-        (violates_RequiredArguments S d = true ∨ violates_FieldSelections S d = true ∨ violates_LeafFieldSelections S d = true
-          ∨ violates_FragmentsOnCompositeTypes S d = true) := by
-      rw [← hA, ← hB]
+        (violates_RequiredArguments S d = true ∨ ((violates_FieldSelections S d = true ∨ violates_LeafFieldSelections S d = true
+          ∨ violates_FragmentsOnCompositeTypes S d = true) ∨ violates_FragmentSpreadIsPossible S d = true)) := by
+      rw [← hA1, ← hB1]
       simp only [typedKinds, List.mem_cons, List.not_mem_nil, or_false]
       constructor
-      · rintro ⟨k, hk, (rfl | rfl | rfl | rfl | rfl | rfl | rfl)⟩
+      · rintro ⟨k, hk, (rfl | rfl | rfl | rfl | rfl | rfl | rfl | rfl | rfl)⟩
         · exact Or.inl (Or.inl hk)
         · exact Or.inl (Or.inr hk)
-        · exact Or.inr (Or.inl hk)
+        · exact Or.inr (Or.inl (Or.inl hk))
+        · exact Or.inr (Or.inl (Or.inr (Or.inl hk)))
+        · exact Or.inr (Or.inl (Or.inr (Or.inr (Or.inl hk))))
+        · exact Or.inr (Or.inl (Or.inr (Or.inr (Or.inr (Or.inl hk)))))
+        · exact Or.inr (Or.inl (Or.inr (Or.inr (Or.inr (Or.inr hk)))))
         · exact Or.inr (Or.inr (Or.inl hk))
-        · exact Or.inr (Or.inr (Or.inr (Or.inl hk)))
-        · exact Or.inr (Or.inr (Or.inr (Or.inr (Or.inl hk))))
-        · exact Or.inr (Or.inr (Or.inr (Or.inr (Or.inr hk))))
-      · rintro ((h | h) | h | h | h | h | h)
+        · exact Or.inr (Or.inr (Or.inr hk))
+      · rintro ((h | h) | ((h | h | h | h | h) | (h | h)))
         · exact ⟨_, h, Or.inl rfl⟩
         · exact ⟨_, h, Or.inr (Or.inl rfl)⟩
         · exact ⟨_, h, Or.inr (Or.inr (Or.inl rfl))⟩
         · exact ⟨_, h, Or.inr (Or.inr (Or.inr (Or.inl rfl)))⟩
         · exact ⟨_, h, Or.inr (Or.inr (Or.inr (Or.inr (Or.inl rfl))))⟩
         · exact ⟨_, h, Or.inr (Or.inr (Or.inr (Or.inr (Or.inr (Or.inl rfl)))))⟩
-        · exact ⟨_, h, Or.inr (Or.inr (Or.inr (Or.inr (Or.inr (Or.inr rfl)))))⟩
+        · exact ⟨_, h, Or.inr (Or.inr (Or.inr (Or.inr (Or.inr (Or.inr (Or.inl rfl))))))⟩
+        · exact ⟨_, h, Or.inr (Or.inr (Or.inr (Or.inr (Or.inr (Or.inr (Or.inr (Or.inl rfl)))))))⟩
+        · exact ⟨_, h, Or.inr (Or.inr (Or.inr (Or.inr (Or.inr (Or.inr (Or.inr (Or.inr rfl)))))))⟩
     have hR : (∃ r ∈ violations {} S d vars o, r ∈ typedRules) ↔
-        (violates_RequiredArguments S d = true ∨ violates_FieldSelections S d = true ∨ violates_LeafFieldSelections S d = true
-          ∨ violates_FragmentsOnCompositeTypes S d = true) := by
+        (violates_RequiredArguments S d = true ∨ ((violates_FieldSelections S d = true ∨ violates_LeafFieldSelections S d = true
+          ∨ violates_FragmentsOnCompositeTypes S d = true) ∨ violates_FragmentSpreadIsPossible S d = true)) := by
       constructor
       · rintro ⟨r, hr, hp⟩
         rw [mem_violations] at hr
         simp only [typedRules, List.mem_cons, List.not_mem_nil, or_false] at hp
-        rcases hp with rfl | rfl | rfl | rfl <;> simp at hr <;> simp [hr]
-      · rintro (h | h | h | h)
+        rcases hp with rfl | rfl | rfl | rfl | rfl <;> simp at hr <;> simp [hr]
+      · rintro (h | ((h | h | h) | h))
         · exact ⟨"5.4.2.1 Required Arguments", (mem_violations ..).mpr (by simp [h]), by decide⟩
         · exact ⟨"5.3.1 Field Selections", (mem_violations ..).mpr (by simp [h]), by decide⟩
         · exact ⟨"5.3.3 Leaf Field Selections", (mem_violations ..).mpr (by simp [h]), by decide⟩
         · exact ⟨"5.5.1.3 Fragments On Composite Types", (mem_violations ..).mpr (by simp [h]), by decide⟩
+        · exact ⟨"5.5.2.3 Fragment Spread Is Possible", (mem_violations ..).mpr (by simp [h]), by decide⟩
     have split1 : (∃ k ∈ strictErrors S {} d vars o, k ∈ provedKinds ++ typedKinds) ↔
         ((∃ k ∈ strictErrors S {} d vars o, k ∈ provedKinds) ∨ (∃ k ∈ strictErrors S {} d vars o, k ∈ typedKinds)) := by
       simp only [List.mem_append]
@@ -594,6 +622,11 @@ open AGV.Lemmas.ValidateRules in
 /-- the hypotheses of the type-dependent theorems hold of the non-trivial valid example and of the
     documents of the witnesses (`dOverlap`: inline fragments below a union) -/
 example : docOK dValid = true ∧ docOK dOverlap = true ∧ docOK dVarPos = true := by decide
+
+open AGV.Lemmas.ValidateRules in
+/-- the union of the witness schema has possible types -/
+theorem c09_witness_schema_abstract_inhabited : AbstractInhabited S0 := by
+  unfold AbstractInhabited; decide
 
 -- ------------------------------------------------------------------ the two original open statements are false
 
